@@ -17,7 +17,9 @@ LEVEL = "other"
 EXPLANATION = ("Path rules over the syntax trees of the 6 value/dual accessors, the solve root, both back-ends' solve methods, "
                "every except clause and every string-option dispatch of the core package: abstract evaluation of the accessors "
                "over the finite domain (leaf?, value stored?), handler well-formedness, dominance of the None early return, "
-               "closed if/elif chains. Holds for every object kind and every model because no rule depends on runtime values.")
+               "closed if/elif chains. Holds for every object kind and every model because no rule depends on runtime values."
+               " Also: the options of the primitive steps are refused whatever the numeric arguments (R-STEPOPT), and a back-end stores what the solver "
+               "gave (or None) at every solve (R-SOLVEVALS), so a stage that finds nothing cannot answer with the numbers of an earlier one.")
 TRUSTED = ["CPython ast", "cvxpy: Expression.value is None when the problem has no solution"]
 ASSUMPTIONS = ["solver status semantics of cvxpy / MOSEK are API facts, not analysed"]
 
